@@ -164,6 +164,20 @@ def oracle_c10(name, inst, res):
             i = st["inp"]
             if not (i and i[0] == "src" and i[2][0] in cont and i[1] in st["live_before"]):
                 return f"source {k} subscribed at input {st['tag']} which is not a continuing termination ({i})"
+    # the sources are consumed IN ORDER, starting with the first one, at the subscription instant
+    order = [(st["tag"], k) for st in steps for k in st["subs"]]
+    if name in ("concat", "catch", "on_error_resume_next"):
+        if [k for _, k in order] != list(range(len(order))):
+            return f"sources subscribed in the order {[k for _, k in order]} (expected 0, 1, 2, ...)"
+        if spec[1] >= 1 and (not order or order[0][0] != 0):
+            return f"{name} over {spec[1]} source(s): the first source was not subscribed at the subscription instant"
+    elif name in ("repeat", "retry", "while_do", "do_while"):
+        if any(k != 0 for _, k in order):
+            return f"{name} subscribed sources {[k for _, k in order]}"
+        if name in ("repeat", "retry") and (spec[1] is None or spec[1] >= 1) and (not order or order[0][0] != 0):
+            return f"{name}({spec[1]}): the source was not subscribed at the subscription instant"
+    elif name == "catch_handler" and (not order or order[0] != (0, 0)):
+        return "catch(handler): the source was not subscribed at the subscription instant"
     t = term(em)
     # counts
     if name == "repeat" and spec[1] is not None:
@@ -197,6 +211,11 @@ def oracle_c11(name, inst, res):
     got = [(tag, b) for (tag, a, b) in em if a == "N"]
     if exp != got:
         return f"merged elements differ: expected {exp} got {got}"
+    at_start = sorted(k for st in steps if st["tag"] == 0 for k in st["subs"])
+    if static and at_start != list(range(inst["spec"][1])):
+        return f"merge over {inst['spec'][1]} sources subscribed {at_start} at the subscription instant"
+    if not static and at_start[:1] != [0]:
+        return f"{name}: the outer source was not subscribed at the subscription instant (subscribed: {at_start})"
     t = term(em)
     if t and t[1] == "C":
         # outer completed and every subscribed inner completed
@@ -226,6 +245,9 @@ def oracle_c12(name, inst, res):
     if v:
         return v
     em = emitted(steps)
+    at_start = sorted(k for st in steps if st["tag"] == 0 for k in st["subs"])
+    if at_start[:1] != [0]:
+        return f"{name}: the outer source was not subscribed at the subscription instant (subscribed: {at_start})"
     latest = 0
     exp = []
     outer_done = False
@@ -270,6 +292,10 @@ def oracle_c13(name, inst, res):
     acc = accepted(steps)
     spec = inst["spec"]
     n = spec[1]
+    at_start = sorted(k for st in steps if st["tag"] == 0 for k in st["subs"])
+    nstatic = n + 1 if name == "with_latest_from" else n
+    if at_start != list(range(nstatic)) and not any(a in "EC" for (tag, a, b) in em if tag == 0):
+        return f"{name} over {nstatic} sources subscribed {at_start} at the subscription instant"
     got = [(tag, tuple(b) if isinstance(b, (tuple, list)) else b) for (tag, a, b) in em if a == "N"]
     if name == "zip":
         seqs = {k: [] for k in range(n)}
